@@ -23,9 +23,15 @@ fn main() {
     // address-space cap for the whole process (workers set their own, tighter one): code under test that allocates without
     // bound ends in an abort of this process (a machinery exit) instead of taking the machine down
     {
-        let mem: u64 = std::env::var("VERIF_MAIN_MEM_MB").ok().and_then(|s| s.parse().ok()).unwrap_or(24 * 1024);
+        let mem: u64 = std::env::var("VERIF_MAIN_MEM_MB")
+            .ok()
+            .and_then(|s| s.parse().ok())
+            .unwrap_or(24 * 1024);
         unsafe {
-            let lim = libc::rlimit { rlim_cur: mem * 1024 * 1024, rlim_max: mem * 1024 * 1024 };
+            let lim = libc::rlimit {
+                rlim_cur: mem * 1024 * 1024,
+                rlim_max: mem * 1024 * 1024,
+            };
             libc::setrlimit(libc::RLIMIT_AS, &lim);
         }
     }
@@ -51,7 +57,11 @@ fn main() {
                 std::process::exit(2);
             }
         };
-        let case = if v.get("case").is_some() { v["case"].clone() } else { v };
+        let case = if v.get("case").is_some() {
+            v["case"].clone()
+        } else {
+            v
+        };
         props::replay(&id, &case)
     } else {
         let tier = match args[2].as_str() {
